@@ -97,6 +97,8 @@ def body(chk):
     wn = chk.world(extra=('-fno-inline',))
     c03_powerlaw.build(chk, wn)
     c03_powerlaw.build(chk, wn, gradients=True)
+    import c09
+    c09.add_type_purity(chk, ['euler_1d', 'euler_2d', 'euler_3d', 'navierstokes_2d', 'navierstokes_3d', 'navierstokes_4d'], only='eval_g')
     chk.solve_all()
 
 
